@@ -5,7 +5,7 @@ use ruint::Uint;
 use vmon::{an, au, big, gen, uint, Arg, Mon};
 
 vmon::widths!(exec; 0, 1, 2, 3, 4, 7, 8, 16, 31, 32, 60, 63, 64, 65, 100, 127, 128, 129, 160, 192,
-    250, 255, 256, 257, 320, 384, 512, 521, 1024, 1088, 2048, 4096);
+    250, 255, 256, 257, 320, 384, 512, 521, 1024, 1088, 2048, 4096, 4160, 16448);
 
 fn exec<const B: usize, const L: usize>(m: &mut Mon, op: &str, a: &[Arg]) {
     match op {
